@@ -46,6 +46,20 @@ def bounded_task():
     return Task(f"{PROP}.Bd.markdown", PROP, "real markdown", run)
 
 
+def site_refs_task():
+    def run():
+        from bounded import c11
+        t0 = time.time()
+        hit = c11.site_references()
+        r = OR(id=f"{PROP}.Bd.site.references_below_a_page_and_in_summaries", status=REFUTED if hit else PROVED, kind="Bd", role="bounded", target="ford.main (whole site)",
+               desc="references in the comments of a procedure's local type, its component and binding, and in `summary:` metadata (shown on three kinds of pages): links to the right page from where they stand",
+               bound=f"1 project, {len(c11.SITE_LINKS)} expected links + every link of the site followed", cases=len(c11.SITE_LINKS), seconds=time.time() - t0, backend="enumeration")
+        if hit:
+            r.replay, r.witness = hit, hit["input"]
+        return [r]
+    return Task(f"{PROP}.Bd.site_refs", PROP, "site", run)
+
+
 def pages_task():
     def run():
         from bounded import c17
@@ -76,6 +90,8 @@ def build(tier, seed):
         return plumbing.sourcefile_gets_incl_src(PROP, lambda: c09.site_search(shape_names=("constructors local types and file links",), options=[c09.OPTIONS[1]]))
     tasks = [Task(f"{PROP}.S.incl_src", PROP, "Project._fortran_file", _incl),
              a_task(PROP, _w(links.find_in_list)), a_task(PROP, _w(links.project_find_tail)), a_task(PROP, _w(links.convert_link_lookup)), link_re_task(),
+             Task(f"{PROP}.S.page_of_the_context", PROP, "MetaMarkdown.convert / FortranBase.markdown", lambda: links.page_of_the_context(PROP, lambda: __import__("bounded.c11", fromlist=["x"]).site_references())),
+             site_refs_task(),
              Task(f"{PROP}.S.kind_tables", PROP, "LINK_TYPES / SUBLINK_TYPES", lambda: links.kind_tables(PROP)), bounded_task(), pages_task(),
              Task(f"{PROP}.S.static_pages", PROP, "PageNode.__init__", lambda: __import__("contracts.pages", fromlist=["x"]).convert_path_obligation(PROP))]
     meta = {
